@@ -100,7 +100,9 @@ func rulesC13(w *World, r *Report) {
 				nExits++
 			}
 		}
+		closesFile.exit = exit
 		p, ret := findBypass(pathQuery{fn: ctor, startBlock: succ, passes: closesFile.instr, exit: exit})
+		closesFile.exit = nil
 		if p != nil {
 			r.Violate("C13.R1", key+":close-on-failure", w.instrPos(ret),
 				"a failure return of "+ctor.Name()+" is reachable after the file was opened and locked without closing it: the lock outlives the failed constructor and blocks the next Open", w.blockPathString(p))
@@ -309,7 +311,30 @@ func rulesC13(w *World, r *Report) {
 						}
 					}
 				}
-				r.Check(under, "C13.R5", "close:"+funcName(f), w.instrPos(c), "cleanup closure closes only when the captured error is non-nil", "a closure closes the handle's descriptor unconditionally: a handle could be handed out with its descriptor closed")
+				if !under {
+					// or under a success flag that is set on every path to a return that hands the handle out
+					for _, in := range f.Parent().Blocks {
+						for _, pi := range in.Instrs {
+							d, ok := pi.(*ssa.Defer)
+							if !ok {
+								continue
+							}
+							if mc, ok := d.Call.Value.(*ssa.MakeClosure); !ok || mc.Fn != ssa.Value(f) {
+								continue
+							}
+							g := analyseFlagGuard(d, func(cc ssa.CallInstruction) bool { return isMethodCall(cc, "os", "File", "Close") })
+							if g != nil && g.setBefore(func(rt *ssa.Return) bool {
+								if errResultIndex(f.Parent()) < 0 {
+									return true
+								}
+								return maySucceed(rt)
+							}) {
+								under = true
+							}
+						}
+					}
+				}
+				r.Check(under, "C13.R5", "close:"+funcName(f), w.instrPos(c), "cleanup closure closes only when the captured error is non-nil (or the success flag is unset)", "a closure closes the handle's descriptor unconditionally: a handle could be handed out with its descriptor closed")
 				continue
 			}
 			in, isCall := c.(*ssa.Call)
